@@ -134,6 +134,8 @@ def _hook(interp, name, args, kwargs, node):
             return Prov(v.table, v.sel, True)
         if isinstance(v, list):
             return ("unique", v)
+        if isinstance(v, (TableStub, Derived)):
+            return Derived(f"unique({v!r})")
         return NotImplemented
     if name in ("numpy.empty", "numpy.array") and args and \
             args[0] in ((0,), [], (0, 0)):
@@ -218,10 +220,19 @@ def _queries(model, rep):
                             "_dofnames_to_rows":
                                 PyFunc(lambda a, k, n: ("R0", "R1", "R2",
                                                         "R3"))})
+                        cfg0 = f"{q}|dim={dim},nodal={no},edge={ed}," \
+                               f"facet={fa}"
                         try:
                             Interp(model, call_hook=hook).call(
                                 dcls.methods[q], [arg], {}, self_obj=obj)
-                        except (Unsupported, Raised) as e:
+                        except Raised as e:
+                            rep.fail(R1, FD, f"Dofs.{q}", f"{cfg0}:raises",
+                                     f"the query raises ({e.what}) for an "
+                                     f"element with {no} nodal, {ed} edge "
+                                     f"and {fa} facet DOFs in {dim}-D",
+                                     dcls.methods[q].lineno)
+                            continue
+                        except Unsupported as e:
                             raise AnalysisError(f"Dofs.{q}: {e}")
                         if len(captured) != 1:
                             raise AnalysisError(f"Dofs.{q}: no DofsView "
@@ -611,6 +622,8 @@ def _dispatch(model, rep):
     cf = bcls.methods["complement_dofs"]
     obj = Obj(bcls, {})
     obj.attrs["N"] = Poly.sym("N")
+    obj.attrs["element_dofs"] = TableStub("element_dofs")
+    obj.attrs["nodal_dofs"] = TableStub("nodal_dofs")
     d = Sel("D")
     try:
         r = Interp(model, call_hook=_hook).call(cf, [d], {}, self_obj=obj)
@@ -620,7 +633,9 @@ def _dispatch(model, rep):
           and r[1] == ("arange", Poly.sym("N")) and r[2] == [d])
     _v(rep, R4, ok, "complement_dofs",
        "setdiff1d(arange(N), concatenate(D))", "AbstractBasis.complement_dofs",
-       f"complement_dofs computes {r!r}, not the complement in range(N)",
+       f"complement_dofs computes {r!r}, not the complement in range(N): "
+       f"for a basis covering part of the mesh the DOFs outside its cells "
+       f"are missing from the complement",
        cf.lineno, path)
 
 
@@ -757,6 +772,11 @@ _D = "skfem/assembly/dofs.py"
 _AB = "skfem/assembly/basis/abstract_basis.py"
 _M = "skfem/mesh/mesh.py"
 MUTANTS = [
+    ("complement taken within the DOFs of the basis' own cells",
+     ("skfem/assembly/basis/abstract_basis.py",
+      "        return np.setdiff1d(np.arange(self.N), np.concatenate(D))",
+      "        return np.setdiff1d(np.unique(self.element_dofs), "
+      "np.concatenate(D))"), "C07-R4"),
     ("edges of quadrilateral facets taken as all edges between selected "
      "vertices",
      ("skfem/mesh/mesh.py", "            edges = np.unique(self.f2e[:, ix])",
